@@ -14,6 +14,17 @@ pub fn default_opts() -> ConnectionOptions<Auth> {
 
 /// Open a connection over a fresh mock; `prep` may adjust the mock before the
 /// I/O thread starts.
+thread_local! {
+    static AMBIENT_JITTER: std::cell::Cell<Option<u64>> = std::cell::Cell::new(None);
+}
+
+/// Sessions opened by this thread from now on get random short sleeps inside the
+/// transport's read and write calls (the I/O thread's timing relative to everybody else
+/// changes, so wake-ups batch differently). Reset at the start of every case.
+pub fn ambient_jitter(seed: Option<u64>) {
+    AMBIENT_JITTER.with(|c| c.set(seed));
+}
+
 pub fn open_with(
     reflex: Reflex,
     opts: ConnectionOptions<Auth>,
@@ -21,6 +32,9 @@ pub fn open_with(
     prep: impl FnOnce(&Handle),
 ) -> (Result<Connection, Error>, Handle) {
     let (mock, h) = new_mock(reflex);
+    if let Some(seed) = AMBIENT_JITTER.with(|c| c.get()) {
+        h.with(|st| st.jitter = Some(crate::rng::Rng::new(seed)));
+    }
     prep(&h);
     let r = Connection::insecure_open_stream(mock, opts, tuning);
     (r, h)
